@@ -21,20 +21,21 @@ clock; `cs t = some b` = thread `t` is inside a read-side section that began at 
 removed at time `r` may be reclaimed only when every open section began after `r` — the weakest
 consequence of "a grace period that started after `r` has completed".
 
-`Cfg.tailSafe` selects what "removed at time `r`" means for reclamation:
-* `false` — the documented contract: `r` = the time the node was unlinked from `q.head`
-  (dequeue returned it / the library called `call_rcu` on the dummy);
-* `true`  — `r` = the time the node became unreachable from **both** `q.head` and `q.tail`
-  (`q.tail` may still point to a node `q.head` has already passed: the dequeue path never
-  looks at `q.tail`).
-All theorems of `Props/C12.lean` are proved for `tailSafe = true`; for `tailSafe = false`
-`Neg/…` exhibits a reachable use-after-free (confirmed on the real code by `harness/scen/lfq.c`).
+`Cfg.helpTail` selects the dequeue text:
+* `true`  — the current code (commit 87e4726): before the CAS on `q.head` the dequeuer loads `q.tail`
+  and, if it equals `head`, helps it forward (`cmpxchg(&q->tail, head, next)`), so the head never
+  passes the tail;
+* `false` — the dequeue before that commit, which never looks at `q.tail`.  `q.tail` can then keep
+  pointing to a node `q.head` has passed; one grace period after its removal the node is freed while
+  still reachable through `q.tail`: `Neg/C12.lean` exhibits the reachable use-after-free
+  (confirmed on the real code by `harness/scen/lfq.c --mode uaf-node|uaf-dummy`).
+All theorems of `Props/C12.lean` are about `helpTail = true`.
 -/
 namespace UrcuVerif.Lfq
 
 structure Cfg where
   n : Nat              -- threads 0 … n-1 (arbitrary)
-  tailSafe : Bool
+  helpTail : Bool := true
 
 inductive Pc
   | idle
@@ -45,6 +46,8 @@ inductive Pc
   | dLdH    -- dequeue: before `head = rcu_dereference(q->head)`
   | dLdN    -- before `next = rcu_dereference(head->next)`
   | dLdN2   -- after enqueue_dummy: before the second `next = rcu_dereference(head->next)`
+  | dLdT    -- (helpTail) before `rcu_dereference(q->tail) == head`
+  | dHelpT  -- (helpTail) before `cmpxchg(&q->tail, head, next)`
   | dCas    -- before `cmpxchg(&q->head, head, next)`
   deriving DecidableEq, Repr
 
@@ -95,7 +98,9 @@ inductive Label
   | deqCall
   | ldHead
   | ldNext (d : Nat)      -- d: the dummy `make_dummy` returns if this load finds the last real node
-  | ldNext2 | casHead
+  | ldNext2
+  | ldTailD | casTailD    -- helpTail: `if (rcu_dereference(q->tail) == head) cmpxchg(&q->tail, head, next)`
+  | casHead
   | reclaim (p : Nat)     -- environment: the memory of p is freed / reused (call_rcu callback, application)
   | destroy
   deriving DecidableEq, Repr
@@ -112,7 +117,7 @@ def live (s : State) (p : Nat) : Bool := s.life p == .inq || s.life p == .remove
 
 /-- every open section began after `p` was removed -/
 def gpElapsed (c : Cfg) (s : State) (p : Nat) : Prop :=
-  ∀ u, u < c.n → match s.cs u with | some b => s.removedAt p < b | none => True
+  ∀ u, u < c.n → ∀ b, s.cs u = some b → s.removedAt p < b
 
 instance (c : Cfg) (s : State) (p : Nat) : Decidable (gpElapsed c s p) := by
   unfold gpElapsed
@@ -123,13 +128,6 @@ def quiescent (c : Cfg) (s : State) : Prop := ∀ u, u < c.n → s.pc u = .idle
 instance (c : Cfg) (s : State) : Decidable (quiescent c s) := by
   unfold quiescent
   exact Nat.decidableBallLT _ _
-
-/-- `q.tail` moves off `a`: under the tail-safe discipline a removed node becomes unreachable only now -/
-def bump (c : Cfg) (s : State) (a : Nat) : State :=
-  if c.tailSafe && s.life a == .removed then
-    { s with removedAt := upd s.removedAt a s.clock,
-             pre := fun p u => if p = a then (s.cs u).isSome else s.pre p u }
-  else s
 
 def tick (s : State) : State := { s with clock := s.clock + 1 }
 
@@ -173,13 +171,13 @@ def step (c : Cfg) (s : State) (t : Nat) : Label → Option (State × Out)
     if s.pc t = .eAdv then
       let pc' := upd s.pc t (if s.inDeq t then .dLdN2 else .idle)
       if s.tail = s.tl t then
-        some (tick { bump c s (s.tl t) with tail := s.node t, pc := pc' }, .unit)
+        some (tick { s with tail := s.node t, pc := pc' }, .unit)
       else some (tick { s with pc := pc' }, .unit)
     else none
   | .casTailHelp =>
     if s.pc t = .eHelp then
       if s.tail = s.tl t then
-        some (tick { bump c s (s.tl t) with tail := s.nx t, pc := upd s.pc t .eLd }, .unit)
+        some (tick { s with tail := s.nx t, pc := upd s.pc t .eLd }, .unit)
       else some (tick { s with pc := upd s.pc t .eLd }, .unit)
     else none
   | .deqCall =>
@@ -202,12 +200,23 @@ def step (c : Cfg) (s : State) (t : Nat) : Label → Option (State × Out)
                               node := upd s.node t d, inDeq := upd s.inDeq t true, pc := upd s.pc t .eLd,
                               hi := max s.hi (d + 1) }, .unit)
         else none
-      else some (tick { s with pc := upd s.pc t .dCas }, .unit)
+      else some (tick { s with pc := upd s.pc t (if c.helpTail then .dLdT else .dCas) }, .unit)
     else none
   | .ldNext2 =>
     if s.pc t = .dLdN2 then
       let a := s.hd t
-      some (tick { s with uaf := s.uaf || !live s a, nx := upd s.nx t (s.next a), pc := upd s.pc t .dCas }, .unit)
+      some (tick { s with uaf := s.uaf || !live s a, nx := upd s.nx t (s.next a),
+                          pc := upd s.pc t (if c.helpTail then .dLdT else .dCas) }, .unit)
+    else none
+  | .ldTailD =>
+    if s.pc t = .dLdT then
+      some (tick { s with pc := upd s.pc t (if s.tail = s.hd t then .dHelpT else .dCas) }, .unit)
+    else none
+  | .casTailD =>
+    if s.pc t = .dHelpT then
+      if s.tail = s.hd t then
+        some (tick { s with tail := s.nx t, pc := upd s.pc t .dCas }, .unit)
+      else some (tick { s with pc := upd s.pc t .dCas }, .unit)
     else none
   | .casHead =>
     if s.pc t = .dCas then
@@ -223,7 +232,7 @@ def step (c : Cfg) (s : State) (t : Nat) : Label → Option (State × Out)
       else some (tick { s with pc := upd s.pc t .dLdH }, .unit)
     else none
   | .reclaim p =>
-    if s.life p = .removed ∧ gpElapsed c s p ∧ (c.tailSafe = true → p ≠ s.tail) then
+    if s.life p = .removed ∧ gpElapsed c s p then
       some (tick { s with life := upd s.life p .fresh, gen := upd s.gen p (s.gen p + 1) }, .unit)
     else none
   | .destroy =>
